@@ -580,6 +580,12 @@ def _sorted_source(ctx, f: Func, value: ast.AST, fl: IndexFields, stmt: ast.stmt
                                 c = c.elts[1]
                             if isinstance(c, ast.Name) and n.args and norm(n.args[0]) == c.id:
                                 found = True
+                    if not found and isinstance(it, ast.Name) and n.args and isinstance(n.args[0], ast.Name):
+                        # loop over a locally sorted buffer, appending one component of each entry
+                        okb, whyb = _buffer_sorted_by(ctx, f, it.id, n.args[0], loop.target, loop)
+                        if not okb:
+                            return False, whyb
+                        found = True
                     if not found:
                         return False, "appended value is not the iterated element of the sorted container"
             if n_app:
@@ -896,7 +902,78 @@ def in_loop(n: ast.AST, lp: ast.AST) -> bool:
     return False
 
 
-@rule("C06.R9", ["C06", "C07"], min_instances=3, design="3.6")
+def _emptiness(h, r_items: str):
+    """Two-flag emptiness taint for the map-pruning helpers: 'E' = the value may be an empty
+    container, 'V' = the (dict) value may hold an empty container as one of its values."""
+    def loop_binding(name: str, at: ast.AST):
+        """(iter expr, position of `name` in an items()-style tuple target or None) of the for/comprehension binding `name`."""
+        for a in ancestors(at):
+            gens = []
+            if isinstance(a, ast.For):
+                gens = [(a.target, a.iter)]
+            elif isinstance(a, (ast.ListComp, ast.DictComp, ast.SetComp, ast.GeneratorExp)):
+                gens = [(g.target, g.iter) for g in a.generators]
+            for tgt, it in gens:
+                if isinstance(tgt, ast.Tuple):
+                    for i, e in enumerate(tgt.elts):
+                        if isinstance(e, ast.Name) and e.id == name:
+                            return it, i
+                elif isinstance(tgt, ast.Name) and tgt.id == name:
+                    return it, None
+        return None
+
+    def taint(e: ast.AST, refine: bool, depth: int = 0) -> Set[str]:
+        if depth > 6:
+            return set()
+        if isinstance(e, ast.ListComp):
+            if any(r_items in norm(c) for g in e.generators for c in g.ifs):
+                return {"E"}
+            return set()
+        if isinstance(e, ast.Name):
+            out: Set[str] = set()
+            lb = loop_binding(e.id, e)
+            if lb is not None:
+                it, pos = lb
+                if pos == 1 and isinstance(it, ast.Call) and isinstance(it.func, ast.Attribute) and it.func.attr == "items":
+                    if "V" in taint(it.func.value, refine, depth + 1):
+                        out.add("E")
+                elif pos is None and isinstance(it, ast.Call) and isinstance(it.func, ast.Attribute) and it.func.attr == "values":
+                    if "V" in taint(it.func.value, refine, depth + 1):
+                        out.add("E")
+            else:
+                for v in assignments_to(h, e.id):
+                    out |= taint(v, refine, depth + 1)
+            if refine and "E" in out:
+                cl = guard_clauses(guards(e))
+                if any(len(c) == 1 and next(iter(c)) in ((f"truthy({e.id})", True), (f"truthy(len({e.id}))", True))
+                       for c in cl):
+                    out.discard("E")
+            return out
+        if isinstance(e, ast.DictComp):
+            tv = taint(e.value, refine, depth + 1)
+            if refine and any(norm(c) in (norm(e.value), f"len({norm(e.value)})") for g in e.generators for c in g.ifs):
+                tv.discard("E")
+            out = set()
+            if "E" in tv:
+                out.add("V")
+            if any(g.ifs for g in e.generators) or any("E" in taint(g.iter.func.value, refine, depth + 1)
+                                                       for g in e.generators if isinstance(g.iter, ast.Call)
+                                                       and isinstance(g.iter.func, ast.Attribute)):
+                out.add("E")
+            return out
+        if isinstance(e, ast.Dict):
+            out = set()
+            for v in e.values:
+                if v is not None and "E" in taint(v, refine, depth + 1):
+                    out.add("V")
+            return out
+        if isinstance(e, ast.Call) and isinstance(e.func, ast.Name) and e.func.id in ("list", "sorted", "dict", "tuple") and e.args:
+            return taint(e.args[0], refine, depth + 1)
+        return set()
+    return taint
+
+
+@rule("C06.R9", ["C06", "C07", "C02", "C01"], min_instances=3, design="3.6")
 def removal_drops_empty_containers(ctx):
     """After Index.remove no key/value of an inverted map is left with an empty position list (a rebuilt index never has one)."""
     fl = fields_of(ctx)
@@ -908,41 +985,31 @@ def removal_drops_empty_containers(ctx):
         bad = []
         n_store = 0
         r_items = h.params()[1]
+        taint = _emptiness(h, r_items)
         for n in walk_local(h.node):
-            # stores of a (possibly filtered) position list into the new container
-            val = None
-            if isinstance(n, ast.Assign) and isinstance(n.targets[0], ast.Subscript):
-                val = n.value
-            elif isinstance(n, (ast.DictComp,)):
-                val = n.value
-            if val is None:
+            # stores of a (possibly filtered) position list / value map into a container
+            if not isinstance(n, ast.Assign):
                 continue
-            # which name holds the filtered list?
-            names_ = [x.id for x in ast.walk(val) if isinstance(x, ast.Name)]
-            filt = None
-            for nm in names_:
-                for v in assignments_to(h, nm):
-                    if isinstance(v, ast.ListComp) and any(r_items in norm(c) for c in v.generators[0].ifs):
-                        filt = nm
-            if isinstance(val, ast.ListComp) and any(r_items in norm(c) for c in val.generators[0].ifs):
-                filt = "<inline>"
-            if filt is None:
+            t = n.targets[0]
+            if not (isinstance(t, ast.Subscript) or (is_self_attr(t) and t.attr in fl.maps)):
+                continue
+            raw = taint(n.value, False)
+            if not raw:
                 continue
             n_store += 1
-            cl = guard_clauses(guards(n))
-            ok = filt != "<inline>" and any(len(c) == 1 and next(iter(c)) == (f"truthy({filt})", True) for c in cl)
-            if isinstance(n, ast.DictComp):
-                ok = any(norm(c) == filt for g_ in n.generators for c in g_.ifs)
-            if not ok:
-                bad.append(f"`{norm(n, 70)}` keeps the key even when every position was removed: getters keep "
-                           f"reporting a key/value no stored point has")
+            left = taint(n.value, True)
+            if left:
+                what = "an empty position list" if "E" in left and not isinstance(n.value, (ast.DictComp, ast.Dict)) \
+                    else "an emptied entry"
+                bad.append(f"`{norm(n, 70)}` keeps the key even when every position was removed ({what} can be stored): "
+                           f"getters keep reporting a key/value no stored point has")
         if n_store == 0:
             bad.append("no store of a filtered position list found")
-        yield Ob("C06.R9", ["C06", "C07"], f"{h.qual} | prunes emptied keys", not bad,
+        yield Ob("C06.R9", ["C06", "C07", "C02", "C01"], f"{h.qual} | prunes emptied keys", not bad,
                  "; ".join(bad[:2]) if bad else f"{n_store} store(s) guarded by a non-empty test", h.loc())
 
 
-@rule("C06.R10", ["C06", "C02", "C10", "C01", "C07"], min_instances=3, design="3.6")
+@rule("C06.R10", ["C06", "C02", "C10", "C01", "C07", "C03"], min_instances=3, design="3.6")
 def renumbering_is_total(ctx):
     """Index.update maps every stored position of every container through the old->new table, unconditionally."""
     fl = fields_of(ctx)
@@ -997,5 +1064,5 @@ def renumbering_is_total(ctx):
                     bad.append(f"`{src.id}` is not bound by an enclosing loop over the container")
             elif not is_self_attr(src):
                 bad.append(f"iterates `{norm(src, 40)}`")
-        yield Ob("C06.R10", ["C06", "C02", "C10", "C01", "C07"], f"{h.qual} | total renumbering", not bad,
+        yield Ob("C06.R10", ["C06", "C02", "C10", "C01", "C07", "C03"], f"{h.qual} | total renumbering", not bad,
                  "; ".join(bad[:2]) if bad else f"{len(stores)} unconditional element-wise map(s)", h.loc())
